@@ -131,6 +131,12 @@ type rig struct {
 
 	openErrs     int
 	acceptExited [2]bool
+
+	// datagram-mode model: per receiving side and stream, the multiset of datagrams that must be readable
+	dgQ    [2]map[uint32][][]byte
+	dgDead [2]map[uint32]bool // the receiver's stream no longer accepts frames (closing frame arrived / closed locally)
+	dgLost int                // datagrams that arrived on a dead stream (dropped legitimately)
+	dgSessDead [2]bool        // the receiving session was closed before the frame arrived
 }
 
 // modelOpen is the number of open streams a side must be counting, derived from the operations and the tap.
@@ -205,6 +211,10 @@ func newRig(t *testing.T, cfg rigCfg) (*rig, error) {
 	}
 	r.streams[0] = map[uint32]*rigStream{}
 	r.streams[1] = map[uint32]*rigStream{}
+	for i := 0; i < 2; i++ {
+		r.dgQ[i] = map[uint32][][]byte{}
+		r.dgDead[i] = map[uint32]bool{}
+	}
 	n := cfg.NumConn
 	if n < 1 {
 		n = 1
@@ -302,6 +312,9 @@ func (r *rig) noteDelivery(li int, d vk.Dir, before, after int64) {
 		return
 	}
 	recs := r.records(li, d)
+	if r.cfg.Unordered {
+		r.dgArrivals(li, d, before, after)
+	}
 	for _, rec := range recs {
 		if rec.end > before && rec.end <= after && rec.ok && rec.closing != closingSession {
 			// record completed by this delivery: is a lower-numbered frame of the same stream still undelivered elsewhere?
@@ -344,6 +357,7 @@ func (r *rig) deliver(d vk.Dir, li int, mode int, permille int) {
 	}
 	l := r.links[li]
 	before := r.delivered[d][li]
+	r.markSessDead()
 	moved := 0
 	switch mode {
 	case 0:
@@ -376,14 +390,66 @@ func (r *rig) deliverEverything() bool {
 	for li, l := range r.links {
 		for _, d := range []vk.Dir{vk.AtoB, vk.BtoA} {
 			before := r.delivered[d][li]
+			r.markSessDead()
 			m := l.DeliverAll(d)
 			if m > 0 {
 				any = true
 				r.delivered[d][li] = before + int64(m)
+				if r.cfg.Unordered {
+					r.dgArrivals(li, d, before, before+int64(m))
+					synctest.Wait() // one connection at a time, so that arrival order across connections is defined
+				}
 			}
 		}
 	}
 	return any
+}
+
+// markSessDead records (at a quiescent moment, before a delivery) which sessions are already closed.
+func (r *rig) markSessDead() {
+	for side := 0; side < 2; side++ {
+		if r.sesh[side].IsClosed() {
+			r.dgSessDead[side] = true
+		}
+	}
+}
+
+// dgArrivals feeds the datagram model with the records completed by a delivery.
+func (r *rig) dgArrivals(li int, d vk.Dir, before, after int64) {
+	recvSide := sideS
+	if d == vk.BtoA {
+		recvSide = sideC
+	}
+	wire := r.links[li].Wire(d)
+	recs, _ := vk.SplitTLSRecords(wire)
+	for _, rec := range recs {
+		end := int64(rec.Off + 5 + len(rec.Body))
+		if end <= before || end > after {
+			continue
+		}
+		f, err := r.ref.Decode(rec.Body)
+		if err != nil {
+			continue
+		}
+		if f.Closing == closingSession {
+			r.dgSessDead[recvSide] = true
+			continue
+		}
+		if r.dgSessDead[recvSide] {
+			continue
+		}
+		if r.dgDead[recvSide][f.StreamID] {
+			if f.Closing == closingNothing {
+				r.dgLost++
+			}
+			continue
+		}
+		if f.Closing == closingStream {
+			r.dgDead[recvSide][f.StreamID] = true
+			continue
+		}
+		r.dgQ[recvSide][f.StreamID] = append(r.dgQ[recvSide][f.StreamID], f.Payload)
+	}
 }
 
 // poll collects finished asynchronous operations. It returns an error on an oracle violation that is
@@ -454,6 +520,18 @@ func (r *rig) onRead(s *rigStream, res ioRes) error {
 			if !found {
 				return vk.Violatef("stream %d side %d: read returned a %d-byte message that is not one of the (not yet delivered) datagrams written on this stream: merged, split, truncated, duplicated or foreign", s.id, s.side, len(d))
 			}
+			q := r.dgQ[s.side][s.id]
+			qi := -1
+			for i, m := range q {
+				if bytes.Equal(m, d) {
+					qi = i
+					break
+				}
+			}
+			if qi < 0 {
+				return vk.Violatef("stream %d side %d: read returned a datagram that had not arrived (or was already read)", s.id, s.side)
+			}
+			r.dgQ[s.side][s.id] = append(append([][]byte(nil), q[:qi]...), q[qi+1:]...)
 		} else {
 			tag := rigTag(s.id, 1-s.side)
 			for i := 0; i < res.n; i++ {
@@ -476,6 +554,15 @@ func (r *rig) onRead(s *rigStream, res ioRes) error {
 		if res.err == io.ErrShortBuffer && r.cfg.Unordered {
 			s.shortBuf++
 			s.lastShort = true
+			larger := false
+			for _, m := range r.dgQ[s.side][s.id] {
+				if len(m) > len(res.buf) {
+					larger = true
+				}
+			}
+			if !larger {
+				return vk.Violatef("stream %d side %d: Read with a %d-byte buffer reported a short buffer although no waiting datagram is larger", s.id, s.side, len(res.buf))
+			}
 			return nil
 		}
 		s.rdErrs++
@@ -491,6 +578,9 @@ func (r *rig) onWrite(s *rigStream, res ioRes) {
 	if s.wrExpectFail {
 		if res.err == nil || res.n > 0 {
 			s.wrAfterCloseOK++
+		}
+		if r.cfg.Unordered && len(s.dgSent) > 0 && res.err != nil {
+			s.dgRefusedIdx = append(s.dgRefusedIdx, len(s.dgSent)-1)
 		}
 		s.attempted -= int64(s.wrSize) - int64(res.n)
 		s.accepted += int64(res.n)
@@ -618,6 +708,7 @@ func (r *rig) startClose(s *rigStream) {
 		s.handedAtClose, _ = r.recvState(s.id, dirOf(1-s.side))
 	}
 	s.closeCalled = true
+	r.dgDead[s.side][s.id] = true
 	s.closeAtAccepted = s.accepted
 	s.closeCh = make(chan error, 1)
 	ch := s.closeCh
